@@ -6,7 +6,7 @@ import glob, json, os, shutil, sys
 ROOT = os.path.dirname(os.path.dirname(os.path.abspath(__file__)))
 idx = json.load(open(os.path.join(ROOT, "seeded", "index.json")))
 conf = {}
-for f in glob.glob("/tmp/mut/confirm*.log") + glob.glob("/tmp/mut2/confirm*.log"):
+for f in glob.glob("/tmp/mut/confirm*.log") + glob.glob("/tmp/mut2/confirm*.log") + glob.glob("/tmp/mut3/confirm*.log"):
     for line in open(f):
         line = line.strip()
         if line.startswith("{"):
@@ -19,7 +19,7 @@ for key, e in idx.items():
     p, m = key.split("/")
     src = e.get("dir") or "/tmp/mut/%s/out/%s" % (p, m)
     dst = os.path.join(ROOT, "seeded", "%s-%s" % (p, m))
-    p = p.replace("R2-", "")
+    p = p.replace("R2-", "").replace("R3-", "")
     if os.path.isdir(src):
         os.makedirs(dst, exist_ok=True)
         for name in os.listdir(src):
@@ -31,7 +31,7 @@ for key, e in idx.items():
                 shutil.copytree(s, d, ignore=shutil.ignore_patterns("target", "*.log", "logs"))
             elif os.path.getsize(s) < 300000:
                 shutil.copy(s, d)
-    c = conf.get(key) or conf.get(key.replace("R2-", "r2:"))
+    c = conf.get(key) or conf.get(key.replace("R2-", "r2:")) or conf.get(key.replace("R3-", "r3:"))
     meta = {
         "property": p, "mutant": m, "breaks": p, "site": e["site"], "needs_to_manifest": e["needs"],
         "caught_by": e.get("caught_by", {}), "missed": e.get("missed"), "machinery_strengthened": e.get("strengthened"),
